@@ -15,12 +15,11 @@ import json, os, random
 import vlib
 import hydcommon as hc
 
-MY_DEVS = ["KeyLen16", "EmptyKey", "BlockCount16"]
+FAMS = [(hc.FID_OF[d], [d]) for d in ["KeyLen16", "EmptyKey", "BlockCount16"]]
 
 
 def open_devs(ctx):
-    of = ctx.open_findings()
-    return [d for d in MY_DEVS if hc.FID_OF[d] in of]
+    return hc.families_of(ctx, FAMS)
 
 
 def validate_batch(ctx, binary, cfgs, name, kind, counters):
